@@ -6,9 +6,12 @@ Writes a JSON list of observations (ints only) for BatchingTrace.tla.
 import json
 import sys
 
+import os
+
 import jax
 
-jax.config.update("jax_enable_x64", True)
+if not os.environ.get("VERIF_WORKER_NO_X64"):
+    jax.config.update("jax_enable_x64", True)      # (VERIF_WORKER_NO_X64: a process in JAX's default 32-bit mode)
 import jax.numpy as jnp  # noqa: E402
 import numpy as np  # noqa: E402
 
@@ -23,6 +26,11 @@ def observe(n, maxb, d, dtype=None):
         # the requested device count as an integer-valued numpy / jax scalar instead of a Python int
         dd = {"np64": np.int64, "np32": np.int32, "jnp32": jnp.int32}[dtype](d)
     bp = BatchProcessor(n_states=n, state_dim=1, max_batch_size=maxb, pmap_device_count=dd)
+    if n > 2000000:
+        # tens of millions of states: the layout attributes only
+        return {"n": n, "maxb": maxb, "d": int(d if d is not None else len(jax.devices())), "nd": int(bp.n_devices),
+                "nb": int(bp.n_batches), "bs": int(bp.batch_size), "pad": int(bp.n_pad), "shape": [], "flat": [], "flatf": [],
+                "un": [[], [], []], "width": [1, 2, 6], "attrsonly": True}
     states = jnp.arange(1, n + 1, dtype=jnp.int32).reshape(n, 1)
     batched = bp.prepare_batches(states)
     shape = tuple(int(x) for x in batched.shape)
@@ -31,7 +39,7 @@ def observe(n, maxb, d, dtype=None):
         "nd": int(bp.n_devices), "nb": int(bp.n_batches), "bs": int(bp.batch_size),
         "pad": int(bp.n_pad), "shape": list(shape),
         "flat": [int(x) for x in np.asarray(batched).reshape(-1)],
-        "un": [], "width": [],
+        "un": [], "width": [], "attrsonly": False,
     }
     # float-typed states with a fractional part: s + 1/2 must come back as s + 1/2, padding as 0, dtype unchanged
     fstates = (jnp.arange(1, n + 1, dtype=jnp.float64) + 0.5).reshape(n, 1)
@@ -62,7 +70,7 @@ def main():
             out.append(observe(n, maxb, d, pt[3] if len(pt) > 3 else None))
         except Exception as ex:  # an exception is an observation too (layout impossible)
             out.append({"n": n, "maxb": maxb, "d": d or 0, "nd": 0, "nb": 0, "bs": 0, "pad": -1,
-                        "shape": [], "flat": [], "flatf": [], "un": [[-1], [-1], [-1]], "width": [1, 2, 6],
+                        "shape": [], "flat": [], "flatf": [], "un": [[-1], [-1], [-1]], "width": [1, 2, 6], "attrsonly": False,
                         "error": repr(ex)[:200]})
     json.dump(out, open(req["out"], "w"))
 
